@@ -220,7 +220,7 @@ Section Surface.
 
   Theorem render_safe v : RenderSafe v.
   Proof.
-    induction v using vtree_rect; intros t sh w s Hrep Hlen; cbn [render];
+    induction v using vtree_rect; intros t sh w s Hrep Hlen; cbn [render]; unfold logged;
       destruct (rep_apply_to H W sh w t Hmax Hrep) as (wsub & Rsub & Ssub).
     - apply lift_d with (sub := apply_to sh t); auto. eapply write_cells_safe; eauto.
     - apply lift_d with (sub := apply_to sh t); auto. eapply write_cells_safe; eauto.
@@ -250,7 +250,7 @@ Section Surface.
     - (* frame *)
       destruct (has_glyphs (v_r vc)); [|exact (IHv t sh w s Hrep Hlen)].
       destruct (fill_with_safe (apply_to sh t) wsub (r_data s)
-                  (fun r c old => frame_cell color (sh_width (apply_to sh t)) (sh_height (apply_to sh t)) c r old) Rsub Hlen)
+                  (fun r c old => frame_cell (v_frag vc) color (sh_width (apply_to sh t)) (sh_height (apply_to sh t)) c r old) Rsub Hlen)
         as (d1 & -> & [L1 F1]).
       cbn [of_opt bind].
       destruct (l_kids t) as [|k ks]; [exact I|].
@@ -326,7 +326,7 @@ Section Surface.
     render vc v t sh s = Ok s' -> Frame (apply_to sh t) (r_data s) (r_data s').
   Proof.
     intros Hl Hrep Hlen. destruct (rep_apply_to H W sh w t Hmax Hrep) as (wsub & Rsub & Ssub).
-    destruct v; try discriminate; cbn [render].
+    destruct v; try discriminate; cbn [render]; unfold logged.
     - apply lift_frame. eapply write_cells_safe; eauto.
     - apply lift_frame. eapply write_cells_safe; eauto.
     - destruct (major dir (l_hh t) (l_ww t) =? 0)%N; [intros [= <-]; apply frame_refl|].
